@@ -2,7 +2,7 @@
 # Offline setup: overlay venv on top of /venv with crosshair-tool + z3-solver + cvc5 from the wheelhouse.
 set -e
 cd "$(dirname "$0")"
-V=/verif/.venv
+V="$(pwd)/.venv"
 if [ -x "$V/bin/python" ] && "$V/bin/python" -c "import z3, crosshair, mypy" 2>/dev/null; then
   echo "overlay venv ok"; exit 0
 fi
